@@ -70,7 +70,7 @@ func ZZ_C03_R3_StopRestores() {
 		pwmValuesWithDistinctTarget: []int{}, controlLoop: zzLoop(0)}
 	e.c = c
 	ctx, cancel := zzv.NewContext()
-	zzv.CancelAfter(cancel, 30)
+	zzv.CancelAfter(cancel, 3500) // native runs: start-up sleeps 2 s + 1 s before the first tick
 	zzv.SetTicks(2)
 	err := c.Run(ctx)
 	zzv.Record("modeAfter", zzv.FilePeek(e.enablePath))
